@@ -354,6 +354,12 @@ def run(ctx: Any, prog: Program) -> None:
             if mode.id not in params:
                 # a local: every value it is assigned anywhere in the function (which one is taken may depend on the file system)
                 defs_ = [a.value for a in ast.walk(fn) if isinstance(a, ast.Assign) and any(isinstance(t, ast.Name) and t.id == mode.id for t in a.targets)]
+                # `mode, encoding = 'xb', None`: the element at the name's position
+                for a in ast.walk(fn):
+                    if isinstance(a, ast.Assign) and len(a.targets) == 1 and isinstance(a.targets[0], ast.Tuple) and isinstance(a.value, ast.Tuple) and len(a.targets[0].elts) == len(a.value.elts):
+                        for t_, v_ in zip(a.targets[0].elts, a.value.elts):
+                            if isinstance(t_, ast.Name) and t_.id == mode.id:
+                                defs_.append(v_)
                 if defs_:
                     out_: List[str] = []
                     for d in defs_:
